@@ -2,7 +2,7 @@
 """Render evidence_thorough/*.json and evidence/*.json as the tier table of DESIGN.md (between TIER markers)."""
 import json, os, glob
 ROOT = os.path.dirname(os.path.dirname(os.path.abspath(__file__)))
-rows = ['| id | quick: obligations / discharged / symbolic paths / solver queries / wall | thorough: obligations / discharged / inconclusive / paths / queries / wall |', '|---|---|---|']
+rows = ['| id | quick: obligations / discharged / symbolic paths / solver queries / wall | thorough (full run, first session grid): obligations / discharged / inconclusive / paths / queries / wall | thorough re-run of the obligations added or changed in rounds 2-4 |', '|---|---|---|---|']
 for i in range(1, 21):
     pid = 'C%02d' % i
     cells = []
@@ -17,7 +17,15 @@ for i in range(1, 21):
                 cells.append('%d / %d / %d / %d / %d / %.0f s' % (c['obligations'], c['discharged'], c.get('inconclusive', 0), c['evaluations'], c.get('solver_queries', 0), e['wall_s']))
         else:
             cells.append('not run')
-    rows.append('| %s | %s | %s |' % (pid, cells[0], cells[1]))
+    f = os.path.join(ROOT, 'evidence_thorough', pid + '.subset.json')
+    if os.path.exists(f):
+        e = json.load(open(f))
+        c = e['coverage']
+        names = sorted({o['id'].split('[')[0] for o in c.get('per_obligation', [])})
+        cells.append('%s: %d / %d / %d / %d / %.0f s' % (', '.join(names), c['obligations'], c['discharged'], c.get('inconclusive', 0), c['evaluations'], e['wall_s']))
+    else:
+        cells.append('-')
+    rows.append('| %s | %s | %s | %s |' % (pid, cells[0], cells[1], cells[2]))
 p = os.path.join(ROOT, 'DESIGN.md')
 s = open(p).read()
 a = s.index('<!-- TIER-BEGIN -->') + len('<!-- TIER-BEGIN -->')
